@@ -281,8 +281,8 @@ def mkEnv (st : St) (o : Oracles) : Env :=
 
 def showDec (bs : Bytes) (r : R (Value × Bytes)) : String :=
   match r.res with
-  | .ok (v, rest) => s!"ok {showValue v} {bs.length - rest.length} c={r.cost}"
-  | .error e => s!"err:{errName e} c={r.cost}"
+  | .ok (v, rest) => s!"ok {showValue v} {bs.length - rest.length} c={r.cost} r={r.re}"
+  | .error e => s!"err:{errName e} c={r.cost} r={r.re}"
 
 partial def decMany (env : Env) (n : Nat) (bs : Bytes) (total : Nat) (acc : List String) : String :=
   if n = 0 then "ok " ++ " ".intercalate acc.reverse ++ s!" {total - bs.length}"
